@@ -66,4 +66,14 @@ DEFS = {
     'is_max_rank': (['m', 'r'], 'forall(i, 0, len(m.pairs), forall(c, 0, len(m.pairs[i]), m.pairs[i][c].rank_student <= r))'
                                 ' and (r == 0 or exists(i, 0, len(m.pairs), exists(c, 0, len(m.pairs[i]), m.pairs[i][c].rank_student == r)))'),
     'all_found': (['L'], 'forall(q, 0, len(L), L[q] != None)'),
+
+    # ---- LP vocabulary: chi(p) = value of p's decision variable under the ghost valuation
+    'chi': (['p'], 'nu(p.lp_var)'),
+    'varsum': (['row'], 'Sum(q, len(row), nu(row[q].lp_var))', 'parametric'),
+    'has_vars': (['rows'], "forall(i, 0, len(rows), forall(c, 0, len(rows[i]), rows[i][c] != None and has(rows[i][c], 'lp_var')))"),
+
+    # rows list projects in non-decreasing rank order (ties share a rank)
+    'rows_sorted': (['m'], 'forall(i, 0, len(m.pairs), forall(a, 0, len(m.pairs[i]), forall(b, a, len(m.pairs[i]), m.pairs[i][a].rank_student <= m.pairs[i][b].rank_student)))'),
+    'lists_two_sided': (['rows'], "forall(i, 0, len(rows), forall(c, 0, len(rows[i]), has(rows[i][c], 'rank_lecturer') and has(rows[i][c], 'studentID') and has(rows[i][c], 'projectID')))"),
+    'stab_vars': (['rows'], "forall(i, 0, len(rows), forall(c, 0, len(rows[i]), has(rows[i][c], 'alpha_var') and has(rows[i][c], 'beta_var')))"),
 }
